@@ -26,6 +26,7 @@ ImplExpected(kind, c) ==
     [] kind = "lis" -> ListenerVerdict(c)
     [] kind = "dia" -> DialerVerdict(c)
     [] kind = "kadpid" -> KadPeerIdVerdict(c)
+    [] kind = "bsblk" -> BsBlockVerdict(c)
 
 \* a class of one of the decision tables
 TCls == /\ Rec[l].e = "cls"
